@@ -105,13 +105,29 @@ var apiEntries = []string{
 	"(*pogreb.DB).Count", "(*pogreb.DB).Items", "(*pogreb.ItemIterator).Next", "(*pogreb.DB).Metrics",
 }
 
+// segFamily splits a name family into (segment base, suffix); base "" when the name is not a segment-derived name.
+// SEGNAME = the name a segment was opened under (segment.name), SEGCANON = the name recomputed from (id, sequence id),
+// DIRENT = a name taken from the directory listing. For legacy names (no sequence id) SEGCANON differs from SEGNAME.
+func segFamily(f string) (base, suffix string) {
+	for _, b := range []string{"SEGNAME", "SEGCANON", "DIRENT"} {
+		if strings.HasPrefix(f, b) {
+			return b, strings.TrimPrefix(f, b)
+		}
+	}
+	return "", f
+}
+
 // ruleC15NameFamilies: what is removed was created; every per-segment family that is created is removed with the segment.
 func ruleC15NameFamilies(r *Run, p *Program, rule string) {
 	sites := collectNameSites(p, apiEntries)
 	created := map[string]bool{}
+	segSuffixes := map[string]bool{}
 	for _, s := range sites {
 		if s.Op == "Open-create" || s.Op == "Rename-to" {
 			created[s.Family] = true
+			if b, suf := segFamily(s.Family); b != "" && s.Op == "Open-create" {
+				segSuffixes[suf] = true
+			}
 		}
 	}
 	var fams []string
@@ -129,36 +145,39 @@ func ruleC15NameFamilies(r *Run, p *Program, rule string) {
 		}
 		nRemove++
 		construct := s.Fn + "->Remove(" + s.Family + ")"
-		okv := created[s.Family]
-		if s.Family == "DIRENT" {
-			// removal of names found in the directory listing: must be filtered by an extension the package creates (recovery .bac)
-			okv = true
-		}
 		if strings.Contains(s.Family, "?") || strings.Contains(s.Family, "PARAM") {
 			r.undecided(rule, construct, p.Pos(s.Pos), "cannot evaluate the file name passed to FileSystem.Remove")
 			continue
 		}
-		r.check(okv, rule, construct, p.Pos(s.Pos),
-			"the removed name family is one the package creates",
-			"FileSystem.Remove targets the name family '"+s.Family+"', which no call site of the package ever creates: the removal is a no-op and the file it was meant to delete stays behind")
-		if s.Fn == "(*pogreb.datalog).removeSegment" {
-			removedBySegRemoval[s.Family] = true
+		base, suf := segFamily(s.Family)
+		switch base {
+		case "SEGNAME":
+			r.check(segSuffixes[suf], rule, construct, p.Pos(s.Pos), "removes <name the segment was opened under>"+suf+", a family the package creates",
+				"FileSystem.Remove targets '<segment name>"+suf+"', which no call site of the package ever creates: the removal is a no-op and the file it was meant to delete stays behind")
+		case "SEGCANON":
+			r.bad(rule, construct, p.Pos(s.Pos), "FileSystem.Remove targets a name recomputed from (id, sequence id) instead of the name the segment was opened under: for segments with a legacy name (no sequence id) this is a different, non-existent file, and the real file is left behind")
+		case "DIRENT":
+			r.ok(rule, construct, p.Pos(s.Pos), "removes names taken from the directory listing", true)
+		default:
+			r.check(created[s.Family], rule, construct, p.Pos(s.Pos), "the removed name family is one the package creates", "FileSystem.Remove targets '"+s.Family+"', which no call site of the package ever creates")
+		}
+		if s.Fn == "(*pogreb.datalog).removeSegment" && base == "SEGNAME" {
+			removedBySegRemoval[suf] = true
 		}
 	}
 	r.universe(rule, nRemove, 3)
-	// per-segment families: SEG and everything created as SEG+suffix
-	nSeg := 0
-	for _, fam := range fams {
-		if !strings.HasPrefix(fam, "SEG") {
-			continue
-		}
-		nSeg++
-		r.check(removedBySegRemoval[fam], rule, "(*pogreb.datalog).removeSegment:removes("+fam+")", "",
-			"files of family "+fam+" are removed together with their segment",
-			"files of family '"+fam+"' are created for a segment but never removed when the segment is removed: they accumulate in the directory")
+	var sufs []string
+	for k := range segSuffixes {
+		sufs = append(sufs, k)
 	}
-	r.universe(rule+":segment-families", nSeg, 2)
-	// recovery backups: every Rename-to family X.bac is removed by removeRecoveryBackupFiles (DIRENT filtered by ext)
+	sort.Strings(sufs)
+	for _, suf := range sufs {
+		r.check(removedBySegRemoval[suf], rule, "(*pogreb.datalog).removeSegment:removes(SEG"+suf+")", "",
+			"files '<segment name>"+suf+"' are removed together with their segment",
+			"files '<segment name>"+suf+"' are created for a segment but never removed (under the name the segment was opened with) when the segment is removed: they accumulate in the directory")
+	}
+	r.universe(rule+":segment-families", len(sufs), 2)
+	// recovery backups
 	hasBac := false
 	for _, s := range sites {
 		if s.Op == "Rename-to" && strings.HasSuffix(s.Family, ".bac") {
@@ -174,65 +193,90 @@ func ruleC15NameFamilies(r *Run, p *Program, rule string) {
 		}
 		r.check(rm, rule, "pogreb.removeRecoveryBackupFiles", "", "recovery backups (*.bac) are removed at the end of recovery", "recovery moves files aside as *.bac but nothing removes them")
 	}
+	// the backup removal only removes *.bac
+	if f := p.Fn("pogreb.removeRecoveryBackupFiles"); r.anchor(rule, "pogreb.removeRecoveryBackupFiles", f != nil) {
+		var rm ssa.Instruction
+		instrsOf(f, func(in ssa.Instruction) {
+			if c, ok := in.(*ssa.Call); ok && isInvoke(&c.Call, "fs.FileSystem", "Remove") {
+				rm = c
+			}
+		})
+		if r.anchor(rule, "Remove in removeRecoveryBackupFiles", rm != nil) {
+			okv := controlledBy(f, rm, func(c *Cond) bool { return strConstEq(c, ".bac") })
+			r.check(okv, rule, "pogreb.removeRecoveryBackupFiles:only-bac", p.Pos(rm.Pos()), "only names with extension .bac are removed", "the end-of-recovery clean-up can remove files that are not recovery backups")
+		}
+	}
 }
 
-// ruleC15CurSegLive: no I/O through datalog.curSeg unless the segment is known not to be sealed or was just swapped.
+// ruleC15CurSegLive: no I/O through datalog.curSeg (directly or in a callee it is passed to) unless the segment is known
+// not to be sealed or was just swapped.
 func ruleC15CurSegLive(r *Run, p *Program, rule string) {
 	n := 0
+	seen := map[string]bool{}
 	for _, f := range p.ModuleFuncs("") {
 		if f.Pkg != p.MainS {
 			continue
 		}
+		loads := false
 		instrsOf(f, func(in ssa.Instruction) {
-			c, ok := in.(*ssa.Call)
-			if !ok {
-				return
-			}
-			var recv ssa.Value
-			what := ""
-			switch {
-			case c.Call.IsInvoke() && typeName(c.Call.Value.Type()) == "fs.File":
-				recv, what = c.Call.Value, "fs.File."+c.Call.Method.Name()
-			case strings.HasPrefix(calleeKey(&c.Call), "(*pogreb.file)."):
-				if len(c.Call.Args) > 0 {
-					recv, what = c.Call.Args[0], calleeKey(&c.Call)
-				}
-			}
-			if recv == nil {
-				return
-			}
-			ap := accessPath(nil, recv)
-			if !strings.Contains(ap.Chain+".", ".curSeg.") {
-				return
-			}
-			n++
-			r.fn(funcKey(f))
-			w := &Walk{Fn: f,
-				Stop: func(x ssa.Instruction) bool {
-					cc, ok := x.(*ssa.Call)
-					return ok && calleeKey(&cc.Call) == "(*pogreb.datalog).swapSegment"
-				},
-				SkipEdge: func(b *ssa.BasicBlock, k int) bool {
-					cd := edgeCond(b, k)
-					if cd == nil || cd.Op != token.ILLEGAL || cd.Pos {
-						return false
-					}
-					// edge on which curSeg.meta.Full is false
-					if !isFieldLoad(cd.V, "pogreb.segmentMeta.Full") {
-						return false
-					}
-					return strings.HasSuffix(accessPath(nil, cd.V).Chain, ".curSeg.meta.Full")
-				}}
-			w.From()
-			construct := funcKey(f) + "->" + what
-			if w.Visited[c] {
-				r.bad(rule, funcKey(f), p.Pos(c.Pos()), construct+" uses datalog.curSeg for I/O on a path that neither tested that the segment is not sealed nor swapped it: compaction seals, closes and removes the current segment when every record in it is dead, and curSeg keeps pointing at it", w.PathTo(p, c)...)
-			} else {
-				r.ok(rule, construct, p.Pos(c.Pos()), "I/O on datalog.curSeg only behind '!curSeg.meta.Full' or after swapSegment", true)
+			if u, ok := in.(*ssa.UnOp); ok && u.Op == token.MUL && fieldName(u.X) == "pogreb.datalog.curSeg" {
+				loads = true
 			}
 		})
+		if !loads {
+			continue
+		}
+		r.fn(funcKey(f))
+		isCur := func(ctx *Ctx, v ssa.Value) bool {
+			ap := accessPath(ctx, v)
+			return strings.Contains(ap.Chain+".", ".curSeg.")
+		}
+		w := &IPWalk{P: p,
+			Visit: func(nd Node) bool {
+				return calleeOfNode(nil, nd) == "(*pogreb.datalog).swapSegment"
+			},
+			SkipEdge: func(ctx *Ctx, b *ssa.BasicBlock, k int) bool {
+				cd := edgeCond(b, k)
+				if cd == nil || cd.Op != token.ILLEGAL || cd.Pos {
+					return false
+				}
+				return isFieldLoad(cd.V, "pogreb.segmentMeta.Full") && isCur(ctx, cd.V)
+			}}
+		root := &Ctx{Fn: f}
+		w.Run(root, nil)
+		all, _ := allNodesFrom(p, root)
+		for nd := range all.Reached {
+			e := fsEventOf(nd)
+			if e == nil || e.Iface != "fs.File" || !strings.Contains(e.Recv.Chain+".", ".curSeg.") {
+				continue
+			}
+			if e.Method == "Slice" || e.Method == "ReadAt" || e.Method == "Stat" {
+				continue
+			}
+			n++
+			construct := funcKey(f) + "->" + funcKey(nd.Ctx.Fn) + ":File." + e.Method
+			if funcKey(nd.Ctx.Fn) == funcKey(f) {
+				construct = funcKey(f) + "->fs.File." + e.Method
+			}
+			if seen[construct] {
+				continue
+			}
+			seen[construct] = true
+			if w.Reached[nd] {
+				r.bad(rule, funcKey(f), p.Pos(instrPos(nd.In)), construct+" uses datalog.curSeg for I/O on a path that neither tested that the segment is not sealed nor swapped it: compaction seals, closes and removes the current segment when every record in it is dead, and curSeg keeps pointing at it until the next swap (\"file already closed\")", w.PathTo(nd)...)
+			} else {
+				r.ok(rule, construct, p.Pos(instrPos(nd.In)), "I/O on datalog.curSeg only behind '!curSeg.meta.Full' or after swapSegment", true)
+			}
+		}
 	}
 	r.universe(rule, n, 2)
+}
+
+// allNodesFrom explores everything reachable from an existing root context.
+func allNodesFrom(p *Program, root *Ctx) (*IPWalk, *Ctx) {
+	w := &IPWalk{P: p}
+	w.Run(root, nil)
+	return w, root
 }
 
 // ruleC15RemoveOrder: removeSegment forgets and closes the segment before unlinking; Compact counts a segment only after its removal.
@@ -270,7 +314,7 @@ func ruleC15RemoveOrder(r *Run, p *Program, rule string) {
 			// success requires the segment file itself to be removed
 			segRemoved := mustCallOnSuccess(f, func(in ssa.Instruction) bool {
 				c, ok := in.(*ssa.Call)
-				return ok && isInvoke(&c.Call, "fs.FileSystem", "Remove") && nameAbs(nil, c.Call.Args[0], 0) == "SEG"
+				return ok && isInvoke(&c.Call, "fs.FileSystem", "Remove") && nameAbs(nil, c.Call.Args[0], 0) == "SEGNAME"
 			})
 			r.check(segRemoved, rule, funcKey(f)+":success-removes-segment", p.Pos(f.Pos()), "removeSegment returns nil only after FileSystem.Remove(segment file)", "removeSegment can return nil without having removed the segment file")
 		}
@@ -508,6 +552,11 @@ func boundsTainted(c *Cond, t map[ssa.Value]bool) bool {
 	if tx == ty {
 		return false
 	}
+	// the comparison itself must not be able to wrap around: no subtraction, no arithmetic below 64 bits and no
+	// narrowing conversion on either side (a wrapped bound accepts any claimed length)
+	if !wrapFree(c.X, 0) || !wrapFree(c.Y, 0) {
+		return false
+	}
 	op := c.Op
 	if !c.Pos {
 		switch op {
@@ -528,4 +577,43 @@ func boundsTainted(c *Cond, t map[ssa.Value]bool) bool {
 		return op == token.LSS || op == token.LEQ
 	}
 	return op == token.GTR || op == token.GEQ
+}
+
+// wrapFree reports whether the integer expression v is evaluated without possible wrap-around, looking down to loads,
+// calls, constants and widening conversions into 64 bits.
+func wrapFree(v ssa.Value, d int) bool {
+	if d > 12 {
+		return false
+	}
+	switch x := v.(type) {
+	case *ssa.Convert:
+		tb, _, ok1 := intBits(x.Type(), false)
+		sb, _, ok2 := intBits(x.X.Type(), false)
+		if !ok1 || !ok2 {
+			return false
+		}
+		if tb < sb {
+			return false
+		}
+		if tb >= 64 {
+			return true // widened into 64 bits: what is inside is a value of a narrower type, taken as is
+		}
+		return wrapFree(x.X, d+1)
+	case *ssa.BinOp:
+		bits, signed, ok := intBits(x.Type(), false)
+		if !ok {
+			return false
+		}
+		switch x.Op {
+		case token.SUB:
+			if !signed {
+				return false
+			}
+			return bits >= 64 && wrapFree(x.X, d+1) && wrapFree(x.Y, d+1)
+		case token.ADD, token.MUL, token.SHL:
+			return bits >= 64 && wrapFree(x.X, d+1) && wrapFree(x.Y, d+1)
+		}
+		return true
+	}
+	return true
 }
